@@ -102,7 +102,6 @@ func countSeq(s []value, c value) int {
 	return n
 }
 
-type mutexState struct{ locked bool }
 
 func init() {
 	noop := func(fr *frame, args []value) value { return nil }
@@ -332,6 +331,10 @@ func isNilFunc(fn value) bool {
 // scheduling point handled by the scheduler otherwise.
 func syncOp(kind string) externalFn {
 	return func(fr *frame, a []value) value {
+		if sched == nil && (kind == "WGAdd" || kind == "WGDone" || kind == "WGWait") {
+			// a WaitGroup announces goroutines: start tracking before the first go statement
+			sched = newScheduler(fr.i)
+		}
 		if sched != nil {
 			sched.syncOp(kind, a)
 		}
